@@ -24,11 +24,27 @@ def cases(rng, tier):
     for i in range(n):
         s = sink.sink(rng, n_consts=rng.randint(0, 2))
         out.append({"wgsl": s["wgsl"], "family": "entries", "opts": {"rustfmt": i % 10 == 0}, "truth": s["entries"]})
+    # entry points whose names are equal up to case: both names are exported and each helper names ITS entry point (the
+    # module itself does not compile - two ENTRY_MAIN constants, a listed finding of C01 - so it is not run on the shim)
+    for a, b_, st in (("main", "Main", ("vertex", "fragment")), ("Main", "main", ("fragment", "vertex")), ("cull", "CULL", ("compute", "compute")),
+                      ("fs_a", "FS_A", ("fragment", "fragment"))):
+        ents, truth = [], []
+        for nm, stage in ((a, st[0]), (b_, st[1])):
+            if stage == "vertex":
+                ents.append("@vertex fn %s() -> @builtin(position) vec4<f32> { return vec4<f32>(0.0); }" % nm)
+                truth.append({"name": nm, "stage": "vertex", "structs": []})
+            elif stage == "fragment":
+                ents.append("@fragment fn %s() -> @location(1) vec4<f32> { return vec4<f32>(0.0); }" % nm)
+                truth.append({"name": nm, "stage": "fragment", "targets": 2})
+            else:
+                ents.append("@compute @workgroup_size(8, 2) fn %s() { }" % nm)
+                truth.append({"name": nm, "stage": "compute", "wg": [8, 2, 1]})
+        out.append({"wgsl": "\n".join(ents) + "\n", "family": "names_equal_up_to_case", "opts": {}, "truth": truth, "no_obs": True})
     return out
 
 
 def run_cases(plain, cases_, workdir, tag):
-    return obs.attach(plain, cases_, workdir, tag, lambda c: True, 40 if "search" not in tag else 0)
+    return obs.attach(plain, cases_, workdir, tag, lambda c: not c.get("no_obs"), 40 if "search" not in tag else 0)
 
 
 def verdict_expr(c, r, ir, real):
